@@ -13,6 +13,8 @@ from .tokenizer import Token, TokenType, Tokenizer
 
 
 OPERATOR_STRINGS = list("+-*/%") + ["**"]
+NEGATION_STRING = "-1*"
+"""String of the operator token which `tokens_to_tokens` makes from a unary minus"""
 
 
 class CustomOrder:
@@ -73,6 +75,17 @@ class Operator(Node):
         if self.content in "+-" and other.content in "+-":
             return True
         return False
+
+
+@dataclass
+class Negation(Operator):
+    """
+    Multiplication by -1 that stands for a unary minus (`-$a`, `-(...)`):
+    a prefix operator which binds tighter than * / % and looser than **
+    """
+
+    def get_order(self) -> CustomOrder:
+        return CustomOrder(25, self.token.line, self.token.col)
 
 
 @dataclass
@@ -153,10 +166,8 @@ def tokens_to_tokens(tokens: list[Token], tokenizer: Tokenizer) -> list[Token]:
             )
             if is_hanging_negative_sign:
                 negative_sign_token = return_tokens.pop()
-                return_tokens.append(
-                    Token(TokenType.KEYWORD, negative_sign_token.line, negative_sign_token.col, "-1"))
                 return_tokens.append(Token(TokenType.OPERATOR,
-                                           negative_sign_token.line, negative_sign_token.col, "*"))
+                                           negative_sign_token.line, negative_sign_token.col, NEGATION_STRING))
                 is_hanging_negative_sign = False
 
             return_tokens.append(Token(TokenType.OPERATOR,
@@ -185,10 +196,8 @@ def tokens_to_tokens(tokens: list[Token], tokenizer: Tokenizer) -> list[Token]:
                         [return_tokens[-1], token])
                 elif token.token_type == TokenType.KEYWORD:
                     negative_sign_token = return_tokens.pop()
-                    return_tokens.append(
-                        Token(TokenType.KEYWORD, negative_sign_token.line, negative_sign_token.col, "-1"))
                     return_tokens.append(Token(TokenType.OPERATOR,
-                                               negative_sign_token.line, negative_sign_token.col, "*"))
+                                               negative_sign_token.line, negative_sign_token.col, NEGATION_STRING))
                     return_tokens.append(token)
                 else:
                     raise JMCSyntaxException(
@@ -236,6 +245,10 @@ def expression_to_tree(expression: list[Token], tokenizer: Tokenizer, datapack: 
             operator = Operator(token.string, token)
             process_stack(incoming=operator)
             operator_stack.append(operator)
+        elif token.token_type == TokenType.OPERATOR and token.string == NEGATION_STRING:
+            # A prefix operator waits for its operand: nothing on the stack is evaluated yet
+            number_stack.append(Constant("-1", token))
+            operator_stack.append(Negation("*", token))
         elif token.token_type == TokenType.PAREN_CURLY:
             tokenizer_ = Tokenizer(
                 token.string[1:-1],
